@@ -13,15 +13,18 @@ import (
 )
 
 type emitter struct {
-	g     *gen
-	fi    *fnInfo
-	info  *types.Info
-	sb    *strings.Builder
-	ind   int
-	names map[types.Object]string
-	used  map[string]bool
-	tmp   int
-	calls map[*fnInfo]bool
+	rawOpt    bool // read a nil-able location as the Option it is (for comparisons with nil)
+	rawAssign bool // the value being assigned already has the representation of its target
+	makeNone  bool // make([]T, n) for elements that can be nil
+	g         *gen
+	fi        *fnInfo
+	info      *types.Info
+	sb        *strings.Builder
+	ind       int
+	names     map[types.Object]string
+	used      map[string]bool
+	tmp       int
+	calls     map[*fnInfo]bool
 }
 
 // ctx: where control goes from the statement being translated
@@ -234,7 +237,7 @@ func (g *gen) emitAll(w io.Writer, repo string) {
 	for _, si := range g.sorder {
 		fmt.Fprintf(w, "structure %s where\n", si.lean)
 		for _, f := range si.fields {
-			fmt.Fprintf(w, "  %s : %s\n", leanField(f.Name()), g.leanType(fi0(g), f.Type()))
+			fmt.Fprintf(w, "  %s : %s\n", leanField(f.Name()), g.typeOfVar(fi0(g), f))
 		}
 		fmt.Fprintf(w, "deriving Repr, DecidableEq\n\n")
 	}
@@ -270,7 +273,7 @@ func (e *emitter) function() {
 	for _, f := range fi.opaqueFields {
 		n := fi.opaqueRecv.Name() + "_" + f.Name()
 		e.used[n] = true
-		binders = append(binders, fmt.Sprintf("(%s : %s)", n, e.g.leanType(fi.decl, f.Type())))
+		binders = append(binders, fmt.Sprintf("(%s : %s)", n, e.g.typeOfVar(fi.decl, f)))
 	}
 	for _, p := range fi.params {
 		if droppedField(p.Type()) {
@@ -279,7 +282,7 @@ func (e *emitter) function() {
 			}
 			continue
 		}
-		binders = append(binders, fmt.Sprintf("(%s : %s)", e.name(p), e.g.leanType(fi.decl, p.Type())))
+		binders = append(binders, fmt.Sprintf("(%s : %s)", e.name(p), e.g.typeOfVar(fi.decl, p)))
 	}
 	var rts []string
 	for _, r := range fi.results {
@@ -289,7 +292,7 @@ func (e *emitter) function() {
 	for i, p := range fi.params {
 		if fi.mut[i] {
 			mutParams = append(mutParams, p)
-			rts = append(rts, e.g.leanType(fi.decl, p.Type()))
+			rts = append(rts, e.g.typeOfVar(fi.decl, p))
 		}
 	}
 	rt := tupleType(rts)
@@ -416,7 +419,7 @@ func (e *emitter) stmts(list []ast.Stmt, c ctx, k func()) {
 					if j < len(vs.Values) {
 						e.line("let %s := %s", e.name(o), e.expr(vs.Values[j]))
 					} else {
-						e.line("let %s := %s", e.name(o), e.g.zero(id, o.Type()))
+						e.line("let %s := %s", e.name(o), e.g.zeroOfVar(id, o))
 					}
 				}
 			}
@@ -484,7 +487,7 @@ func (e *emitter) ifStmt(s *ast.IfStmt, rest []ast.Stmt, c ctx, k func()) {
 		kn := e.fresh("k")
 		var ts, ns []string
 		for _, v := range vars {
-			ts = append(ts, e.g.leanType(s, v.Type()))
+			ts = append(ts, e.g.typeOfVar(s, v))
 			ns = append(ns, e.name(v))
 		}
 		if len(vars) == 0 {
@@ -546,7 +549,7 @@ func (e *emitter) stateOf(vars []*types.Var, at ast.Node) (pat, typ string) {
 	var ns, ts []string
 	for _, v := range vars {
 		ns = append(ns, e.name(v))
-		ts = append(ts, e.g.leanType(at, v.Type()))
+		ts = append(ts, e.g.typeOfVar(at, v))
 	}
 	return tuple(ns), tupleType(ts)
 }
@@ -747,6 +750,9 @@ func (e *emitter) rangeStmt(s *ast.RangeStmt, rest []ast.Stmt, c ctx, k func()) 
 	}
 	if hasVal && rootAssigned {
 		e.g.fail(s, "range with a value variable over something the body writes")
+	}
+	if xo, el := e.g.pathObj(e.info, s.X); xo != nil && !el && e.g.elemNilable[xo] && hasVal {
+		e.g.nilable[e.info.Defs[s.Value.(*ast.Ident)]] = true
 	}
 	x := e.expr(s.X)
 	if hasVal {
